@@ -424,6 +424,25 @@ def gen_extreme_layout_cases(rng, W, binpath, shard_no, nshards):
     return cases
 
 
+def gen_absolute_name_cases(rng, W, binpath, absdir):
+    """a step whose name is an absolute path ending in a separator: joined to any directory it yields the same place, so a
+    sub-layout filed there that is valid evidence for its own step is found again at every level - without any symbolic
+    link.  `absdir` is a directory the caller created (and removes)."""
+    import os
+    cases = []
+    for k in ("ed4", "ec-b"):
+        name = absdir.rstrip("/") + f"/{k}/"
+        os.makedirs(name, exist_ok=True)
+        layout = scen.mk_layout(W, [k], [scen.mk_step(name, 1, [W.kid(k)], [], [["ALLOW", "*"]], [["ALLOW", "*"]])], [])
+        w = scen.sign_all(binpath, [(layout, [k], "new")], nproc=1)[0]
+        with open(os.path.join(name, f".{W.pfx(k)}.link"), "w") as f:
+            f.write(scen.dumps(w))
+        cases.append({"op": "verify", "layout": scen.dumps(w), "caller_keys": [[W.kid(k), W.pub(k)]], "files": {},
+                      "work_files": {}, "step_name": None, "reps": 1, "call_timeout_s": 30,
+                      "meta": {"cls": "self_similar_sublayout_under_absolute_step_name"}})
+    return cases
+
+
 def gen_self_similar_cases(rng, W, binpath):
     """a layout that is valid evidence for its own step (signed by the functionary it authorises), whose dedicated
     sub-directory is a symbolic link back to the link directory (planted without any key): verification must come back"""
@@ -473,6 +492,10 @@ def gen_inspection_tree_cases(rng, W, binpath, n):
         for j in range(rng.choice([1, 2, 3])):
             work[f"d{j}/special{j}"] = {"symlink": rng.choice(["/dev/zero", "/dev/urandom", "/dev/null", "/dev/full", ".", "..", "special%d" % j,
                                                                  "/proc/self/fd/0", "/nonexistent/target", "../plain.txt"])}
+        if k % 4 == 1:
+            # the product directory is not under the verifier's control: where the inspection's link file is to be written
+            # there may already be something, and it need not be a regular file
+            work["look.link"] = rng.choice([{"fifo": True}, {"symlink": "/dev/full"}, {"dir": True}, {"symlink": "look.link"}, {"symlink": "/nonexistent/x"}])
         cases.append({"op": "verify", "layout": json.dumps(lw), "caller_keys": [[W.kid("ed0"), W.pub("ed0")]],
                       "files": {f"{step}.{signer}.link": json.dumps(link)}, "work_files": work, "step_name": None, "reps": 1,
                       "call_timeout_s": 30,
@@ -589,6 +612,11 @@ def shard(binpath, seed, sh, n, env=None, runner=None, tag="native"):
     cases += gen_extreme_layout_cases(rng, W, common.HARNESS / "target" / "release" / "itv", sh, common.NPROC)
     if sh in (2, 3):
         cases += gen_time_cases(rng, seeds)
+    absdir = None
+    if sh == 4:
+        import tempfile
+        absdir = tempfile.mkdtemp(prefix="itv-abs-", dir="/dev/shm" if os.path.isdir("/dev/shm") else str(common.scratch_dir()))
+        cases += gen_absolute_name_cases(rng, W, common.HARNESS / "target" / "release" / "itv", absdir)
     if sh in (0, 1):
         cases += gen_self_similar_cases(rng, W, common.HARNESS / "target" / "release" / "itv")
     if sh == 0 and not runner:
@@ -615,6 +643,8 @@ def shard(binpath, seed, sh, n, env=None, runner=None, tag="native"):
             cls.append("library_log_statements_formatted")
             res.extras["library_log_records_formatted"] = res.extras.get("library_log_records_formatted", 0) + o["log_records"]
         res.note([c.get("ep"), c.get("data"), c.get("item"), c.get("files")], r in ("ok", "err", "panic", "parse_err"), cls=cls)
+    if absdir:
+        shutil.rmtree(absdir, ignore_errors=True)
     if sh == 0:
         for c, o in list(zip(cases, obs))[:3]:
             res.sample({"entry_point": c.get("ep"), "input_class": c["meta"]["cls"], "data": str(c.get("data"))[:200], "outcome": o.get("r")})
@@ -807,7 +837,7 @@ def main(ctx):
                                     "statement_json", "predicate_json", "envelope")] + \
           ["ep:metablock:ok", "ep:pubkey_json:ok", "ep:spki:ok", "ep:pk8:ok", "ep:rules:ok", "ep:verify:err", "input:adversarial_json",
            "input:byte_mutation", "input:random_bytes", "input:hostile_link_dir", "input:rules_adversarial", "input:hostile_signed_layout",
-           "input:large", "input:inspection_over_special_files", "input:extreme_signed_layout", "input:self_similar_sublayout_directory_loop", "input:extreme_time_stamp", "library_log_statements_formatted"]
+           "input:large", "input:inspection_over_special_files", "input:extreme_signed_layout", "input:self_similar_sublayout_directory_loop", "input:self_similar_sublayout_under_absolute_step_name", "input:extreme_time_stamp", "library_log_statements_formatted"]
     return common.finish(
         PROP, ctx.tier, ctx.seed, res, t0=ctx.t0,
         rule="28 entry points (JSON decoders of every public type through slice/str, metadata wrappers, raw builder, key importers "
